@@ -8,5 +8,6 @@ CONSTANTS
   KeepPublicFlag = FALSE
   NoBodyZone = FALSE
   Strict = FALSE
+VIEW TView
 POSTCONDITION Accepted
 CHECK_DEADLOCK FALSE
